@@ -245,8 +245,17 @@ def maxabs(J):
 # ------------------------------------------------------------------------------------------------
 # implementation side
 # ------------------------------------------------------------------------------------------------
+_PARAM_TENSORS = []          # parameter tensors handed to the aggregator under construction
+
+
 def vec_t(v, dt):
-    return None if v is None else torch.tensor([float(x) for x in v], dtype=DT[dt])
+    if v is None:
+        return None
+    t = torch.tensor([float(x) for x in v], dtype=DT[dt])
+    if len(_PARAM_TENSORS) > 64:
+        del _PARAM_TENSORS[:]
+    _PARAM_TENSORS.append((t, t.clone()))
+    return t
 
 
 def make_aggregator(name, p, dt):
@@ -285,15 +294,62 @@ def make_aggregator(name, p, dt):
     raise KeyError(name)
 
 
+# An aggregator is stateless (C11) and a caller may keep ONE instance for a whole training run and
+# refill ONE pre-allocated Jacobian buffer: the checks do exactly that.  Instances are reused for equal
+# (name, parameters, dtype), matrices of equal shape and dtype are copied into the same tensor object,
+# and the parameter tensors given at construction must come back unmodified from every call.  On a
+# stateless implementation this is indistinguishable from fresh instances and fresh tensors.
+REUSE = True
+_INSTANCES = {}
+_BUFFERS = {}
+
+
+def _pkey(p):
+    return repr(sorted((k, repr(jsonable(v)) if isinstance(v, (list, tuple)) else repr(v))
+                       for k, v in (p or {}).items()))
+
+
+def get_instance(name, p, dt):
+    key = (name, _pkey(p), dt)
+    if REUSE and key in _INSTANCES:
+        return _INSTANCES[key]
+    del _PARAM_TENSORS[:]
+    inst = make_aggregator(name, p, dt)
+    entry = (inst, list(_PARAM_TENSORS))
+    if REUSE:
+        if len(_INSTANCES) > 20000:
+            _INSTANCES.clear()
+        _INSTANCES[key] = entry
+    return entry
+
+
+def get_buffer(J, dt):
+    src = to_tensor(J, dt)
+    if not REUSE:
+        return src
+    key = (tuple(src.shape), dt)
+    buf = _BUFFERS.get(key)
+    if buf is None:
+        if len(_BUFFERS) > 2000:
+            _BUFFERS.clear()
+        buf = _BUFFERS[key] = torch.empty_like(src)
+    buf.copy_(src)
+    return buf
+
+
 def impl_call(name, p, J, dt, seed=None, weighting=False, tensor=None):
     """Returns ("ok", [floats]) or ("err", class name).  Never raises."""
     try:
-        A = make_aggregator(name, p, dt)
-        t = to_tensor(J, dt) if tensor is None else tensor
+        A, params = get_instance(name, p, dt)
+        t = get_buffer(J, dt) if tensor is None else tensor
         if seed is not None:
             torch.manual_seed(seed)
         out = A.weighting(t) if weighting else A(t)
-        return ("ok", [float(x) for x in out.to(torch.float64).reshape(-1)], out.dtype, tuple(out.shape))
+        res = ("ok", [float(x) for x in out.to(torch.float64).reshape(-1)], out.dtype, tuple(out.shape))
+        for cur, orig in params:
+            if cur.shape != orig.shape or not torch.equal(cur, orig):
+                return ("err", "ParameterTensorModifiedByCall", None, None)
+        return res
     except Exception as e:  # noqa: BLE001
         return ("err", type(e).__name__, None, None)
 
